@@ -78,10 +78,12 @@ def rODb (s : String) : Option (List (List ORec)) :=
 
 /-! ## rendering the Impl run -/
 
-def wNode (p : PathK) : Node → String
-  | .dir perm => s!"{hexS (joinNames p)}:d:{perm}:0:0:"
-  | .file s perm _ _ => s!"{hexS (joinNames p)}:f:{perm}:0:0:{String.ofList s}"
-  | .link t _ perm _ => s!"{hexS (joinNames p)}:l:{perm}:0:0:{hexS t}"
+def wNode (p : PathK) (n : Node) : String :=
+  let own := s!"{(nodeOwner n).1}:{(nodeOwner n).2}"
+  match n with
+  | .dir perm => s!"{hexS (joinNames p)}:d:{perm}:{own}:"
+  | .file s perm _ _ => s!"{hexS (joinNames p)}:f:{perm}:{own}:{String.ofList s}"
+  | .link t _ perm _ => s!"{hexS (joinNames p)}:l:{perm}:{own}:{hexS t}"
 
 def dbDirPrefix : PathK := ["lib".toList, "apk".toList, "db".toList]
 
@@ -145,9 +147,9 @@ def explain (pkgs : List Pkg) (impl : Run) (implReasons : List Text) (r : Text) 
 def implObs (pkgs : List Pkg) (impl : Run) : List ONode × List (List ORec) :=
   let nodes := impl.st.tree.map fun (p, n) =>
     match n with
-    | .dir perm => ({ path := joinNames p, kind := .dir, perm := perm, uid := 0, gid := 0, x := [] } : ONode)
-    | .file s perm _ _ => { path := joinNames p, kind := .reg, perm := perm, uid := 0, gid := 0, x := s }
-    | .link t _ perm _ => { path := joinNames p, kind := .link, perm := perm, uid := 0, gid := 0, x := t }
+    | .dir perm => ({ path := joinNames p, kind := .dir, perm := perm, uid := (nodeOwner n).1, gid := (nodeOwner n).2, x := [] } : ONode)
+    | .file s perm _ _ => { path := joinNames p, kind := .reg, perm := perm, uid := (nodeOwner n).1, gid := (nodeOwner n).2, x := s }
+    | .link t _ perm _ => { path := joinNames p, kind := .link, perm := perm, uid := (nodeOwner n).1, gid := (nodeOwner n).2, x := t }
   let recs := (pkgs.zip impl.recs).map fun (_, files) =>
     match Formats.sortHeaders (files.map toRec) with
     | none => []
